@@ -4,3 +4,15 @@ import XProofs.Properties.C19
 #print axioms Properties.C19.C19_full_paren_parse
 #print axioms Properties.C19.C19_full_paren_value
 #print axioms Properties.C19.C19_parser_range
+#print axioms Properties.C19.C19_minimal_paren_parse
+#print axioms Properties.C19.C19_minimal_paren_in_position
+#print axioms Properties.C19.C19_reads_parse
+#print axioms Properties.C19.C19_minimal_paren_injective
+#print axioms Properties.C19.C19_no_paren_iff_flat
+#print axioms Properties.C19.C19_left_associative
+#print axioms Properties.C19.C19_left_associative_explicit
+#print axioms Properties.C19.C19_left_associative_chain
+#print axioms Properties.C19.C19_precedence
+#print axioms Properties.C19.C19_precedence_explicit
+#print axioms Properties.C19.C19_two_operator_table
+#print axioms Properties.C19.C19_unary_minus
